@@ -9027,13 +9027,13 @@ bool SoPlexBase<R>::_parseSettingsLine(char* line, const int lineNumber)
                   || strncasecmp(paramValueString, "TRUE", 4) == 0
                   || strncasecmp(paramValueString, "t", 4) == 0
                   || strncasecmp(paramValueString, "T", 4) == 0
-                  || strtol(paramValueString, nullptr, 4) == 1)
+                  || strcmp(paramValueString, "1") == 0)
                success = setBoolParam((SoPlexBase<R>::BoolParam)param, true);
             else if(strncasecmp(paramValueString, "false", 5) == 0
                     || strncasecmp(paramValueString, "FALSE", 5) == 0
                     || strncasecmp(paramValueString, "f", 5) == 0
                     || strncasecmp(paramValueString, "F", 5) == 0
-                    || strtol(paramValueString, nullptr, 5) == 0)
+                    || strcmp(paramValueString, "0") == 0)
                success = setBoolParam((SoPlexBase<R>::BoolParam)param, false);
             else
                success = false;
@@ -9552,13 +9552,13 @@ bool SoPlexBase<R>::parseSettingsString(char* string)
                   || strncasecmp(paramValueString, "TRUE", 4) == 0
                   || strncasecmp(paramValueString, "t", 4) == 0
                   || strncasecmp(paramValueString, "T", 4) == 0
-                  || strtol(paramValueString, nullptr, 4) == 1)
+                  || strcmp(paramValueString, "1") == 0)
                success = setBoolParam((SoPlexBase<R>::BoolParam)param, true);
             else if(strncasecmp(paramValueString, "false", 5) == 0
                     || strncasecmp(paramValueString, "FALSE", 5) == 0
                     || strncasecmp(paramValueString, "f", 5) == 0
                     || strncasecmp(paramValueString, "F", 5) == 0
-                    || strtol(paramValueString, nullptr, 5) == 0)
+                    || strcmp(paramValueString, "0") == 0)
                success = setBoolParam((SoPlexBase<R>::BoolParam)param, false);
             else
                success = false;
